@@ -71,8 +71,17 @@ def check_cases(cases: list[dict], rep: Report, known: dict) -> None:
             break
         e = wire.build_raw(c["e"])
         p = wire.build_point(c["p"])
-        for q in c.get("prior", []):
-            call(e.at, wire.build_point(q))
+        prior = c.get("prior", [])
+        if prior and len(c["p"]) % 2 and c.get("entry") != "number":
+            from ..core import sm
+            call(e.at, p)               # the same Point object is used again below, after other entry points ran elsewhere
+            vs = sorted(e._variable_names)
+            for k, q in enumerate(prior):
+                qp = wire.build_point(q)
+                call(lambda: sm.LocatedDifferential(e, qp)) if k % 2 else call(lambda: sm.Partial(e, vs[0] if vs else "x").at(qp))
+        else:
+            for q in prior:
+                call(e.at, wire.build_point(q))
         if c.get("entry") == "number" and len(e._variable_names) <= 1:
             names = sorted(e._variable_names)
             t = wire.coords(p).get(names[0], 1) if names else 1
